@@ -197,7 +197,7 @@ static uint64_t gen_interval(void) {
 	return 500000 + g_n(5000000);
 }
 
-enum { TO_PAUSE, TO_NEW, TO_AFTER, TO_RECONF_OTHER, TO_RECONF_HANDLER, TO_RECONF_SUSPENDED, TO_SUSPEND_RESUME, TO_CANCEL, TO_CANCEL_MANY, TO_BLOCK_QUEUE, TO_N };
+enum { TO_PAUSE, TO_NEW, TO_AFTER, TO_RECONF_OTHER, TO_RECONF_HANDLER, TO_RECONF_SUSPENDED, TO_SUSPEND_RESUME, TO_CANCEL, TO_CANCEL_MANY, TO_BLOCK_QUEUE, TO_CANCEL_ALL, TO_N };
 static void block_item(void *c) { sim_sleep_ns((uint64_t)(uintptr_t)c); }   // keeps a handler queue busy: sources pile up behind it
 typedef struct top { int idx, kind, tm, clock, qi, form, far; int64_t delta; uint64_t interval, leeway, pause; } top;
 static top tops[4][12]; static int ntops[4];
@@ -230,6 +230,9 @@ static void *timer_client(void *arg) {
 			break;
 		case TO_CANCEL: if (t && !t->cancelled) { t->cancelled = 1; h_log("cancel timer %d", t->id); dispatch_source_cancel(t->ds); } break;
 		case TO_BLOCK_QUEUE: if (op->qi) dispatch_async_f(T.q[op->qi], (void *)(uintptr_t)(op->pause * 8), block_item); break;   // up to ~5 ms
+		case TO_CANCEL_ALL:
+			for (int k = 0, n = T.ntm; k < n; k++) { tm_rec *v = &T.tm[k]; if (!v->ready || v->cancelled || !v->nep) continue; v->cancelled = 1; h_log("cancel timer %d (all)", v->id); dispatch_source_cancel(v->ds); }
+			break;
 		case TO_CANCEL_MANY: {
 			// arbitrary removals from a populated heap, in an order unrelated to the deadlines
 			uint64_t x = (uint64_t)op->delta * 0x9e3779b97f4a7c15ull + (uint64_t)op->tm;
@@ -329,16 +332,35 @@ static void c11_run(void) {
 		op->delta = g_chance(1, 3) ? -(int64_t)g_n(100000) : g_chance(1, 2) ? 0 : (int64_t)g_n(80000); op->interval = g_chance(1, 2) ? 0 : 50000 + g_n(300000); op->leeway = 0;
 		ntops[0] = n;
 	}
+	// a second dedicated shape (another eighth): a sparse clock. One or two timers, all on one clock, are cancelled
+	// before they fire, the clock then stays empty until their old deadlines are past, and only then something new is
+	// armed on it (the kernel timer of a clock that went empty and comes back), once or twice over
+	else if (g_chance(1, 7)) {
+		int clk = (int)g_n(3); npop = g_range(1, 2); T.nth = 1;
+		int64_t maxd = 0;
+		for (int i = 0; i < npop; i++) { pop[i].clock = clk; pop[i].qi = (int)g_n(3); pop[i].strict = 0; pop[i].far = 0; pop[i].delta = (int64_t)(200000 + g_n(600000)); pop[i].interval = g_chance(1, 2) ? 0 : 100000 + g_n(400000); pop[i].leeway = 0; if (pop[i].delta > maxd) maxd = pop[i].delta; }
+		int n = 0; top *op;
+		int cycles = g_range(1, 2);
+		for (int cy = 0; cy < cycles; cy++) {
+			op = &tops[0][n++]; memset(op, 0, sizeof *op); op->idx = idx++; op->kind = TO_PAUSE; op->pause = (uint64_t)g_range(1, 150) * USEC;
+			op = &tops[0][n++]; memset(op, 0, sizeof *op); op->idx = idx++; op->kind = TO_CANCEL_ALL;    // everything armed so far
+			op = &tops[0][n++]; memset(op, 0, sizeof *op); op->idx = idx++; op->kind = TO_PAUSE; op->pause = (uint64_t)maxd + (uint64_t)g_n(400000);
+			op = &tops[0][n++]; memset(op, 0, sizeof *op); op->idx = idx++; op->kind = g_chance(1, 2) ? TO_NEW : TO_AFTER; op->clock = clk; op->qi = (int)g_n(3); op->form = (int)g_n(2);
+			op->delta = (int64_t)(50000 + g_n(500000)); op->interval = g_chance(1, 2) ? 0 : 100000 + g_n(300000); op->leeway = 0;
+			maxd = op->delta;
+		}
+		ntops[0] = n;
+	}
 	for (int i = 0; i < npop; i++) if (op_on(i))
 		h_sample("#%d timer clock=%s start=%+ld interval=%lu leeway=%lu q%d%s\n", i, clk_names[pop[i].clock], (long)pop[i].delta, (unsigned long)pop[i].interval, (unsigned long)pop[i].leeway, pop[i].qi, pop[i].strict ? " strict" : "");
-	static const char *const tn[TO_N] = { "pause", "new-timer", "after", "set_timer(other thread)", "set_timer(from handler)", "suspend+set_timer+resume", "suspend+resume", "cancel", "cancel-many", "block-handler-queue" };
+	static const char *const tn[TO_N] = { "pause", "new-timer", "after", "set_timer(other thread)", "set_timer(from handler)", "suspend+set_timer+resume", "suspend+resume", "cancel", "cancel-many", "block-handler-queue", "cancel-all" };
 	for (int th = 0; th < T.nth; th++) {
 		h_sample("client %d:", th);
 		for (int i = 0; i < ntops[th]; i++) if (op_on(tops[th][i].idx)) {
 			top *op = &tops[th][i];
 			h_sample(" #%d %s", op->idx, tn[op->kind]);
 			if (op->kind == TO_PAUSE) h_sample("(%luus)", (unsigned long)(op->pause / 1000));
-			else if (op->kind != TO_CANCEL && op->kind != TO_CANCEL_MANY && op->kind != TO_SUSPEND_RESUME && op->kind != TO_BLOCK_QUEUE) h_sample("(%s,%+ld,%lu)", clk_names[op->clock], (long)op->delta, (unsigned long)op->interval);
+			else if (op->kind != TO_CANCEL && op->kind != TO_CANCEL_MANY && op->kind != TO_CANCEL_ALL && op->kind != TO_SUSPEND_RESUME && op->kind != TO_BLOCK_QUEUE) h_sample("(%s,%+ld,%lu)", clk_names[op->clock], (long)op->delta, (unsigned long)op->interval);
 		}
 		h_sample("\n");
 	}
